@@ -15,13 +15,15 @@ import json, os, random, subprocess, sys, time
 import vlib, helpers, coregen
 from vlib import log
 
-CORE_PROPS = ["C01", "C02", "C03", "C04", "C06", "C07", "C08", "C09", "C10", "C11", "C12", "C15"]
+CORE_PROPS = ["C01", "C02", "C03", "C04", "C06", "C07", "C08", "C09", "C10", "C11", "C12", "C14", "C15"]
 
 # per property: which entries get extra weight and which auto-expansion is used
 PROFILE = {
     "default": {"n": {"quick": 10, "thorough": 60}, "auto": {"prefix_cap": 8, "all_upto": 4, "random": 2, "builtin": True}, "perms": 2},
     "C03": {"n": {"quick": 10, "thorough": 60}, "auto": {"prefix_cap": 14, "all_upto": 6, "random": 6, "builtin": True}, "perms": 0},
     "C15": {"n": {"quick": 10, "thorough": 60}, "auto": {"prefix_cap": 0, "all_upto": 0, "random": 0, "builtin": False}, "perms": 6},
+    "C14": {"n": {"quick": 14, "thorough": 80}, "auto": {"prefix_cap": 0, "all_upto": 0, "random": 0, "builtin": True}, "perms": 0, "json_only": True,
+            "faulty": True},
     "C12": {"n": {"quick": 10, "thorough": 60}, "auto": {"prefix_cap": 6, "all_upto": 3, "random": 3, "builtin": True}, "perms": 1},
 }
 
@@ -95,14 +97,14 @@ def gen_inputs(pid, tier, seed):
     recs = []
     for eid, ty in ents:
         for i in range(n):
-            p = [0.0, 0.12, 0.3, 0.5][i % 4]
+            p = [0.0, 0.12, 0.3, 0.5][i % 4] if not prof.get("faulty") else [0.15, 0.3, 0.5, 0.7][i % 4]
             val = pg.gen(ty, p)
             nm = coregen.count_maps(val)
             perms = []
             if prof["perms"] and nm > 0:
                 perms = coregen.top_perms(val, 24 if tier == "thorough" else 6) if i % 2 == 0 else []
                 perms += [coregen.permute(val, rng) for _ in range(prof["perms"])]
-            recs.append({"ty": eid, "val": val, "src": "json" if i % 2 == 0 else "ov", "grp": "start", "perm": False,
+            recs.append({"ty": eid, "val": val, "src": "json" if (i % 2 == 0 or prof.get("json_only")) else "ov", "grp": "start", "perm": False,
                          "auto": prof["auto"], "perms": perms})
     if pid == "C15":
         recs += collide_inputs(ents, rng)
